@@ -1163,6 +1163,7 @@ def keyText (k : Node) : String :=
   | .mk .ident (n :: _) _ => "i:" ++ n
   | .mk .str (v :: _) _ => "s:" ++ v
   | .mk .num (v :: _) _ => "n:" ++ v
+  | .mk .computed _ [.mk .ident (n :: _) _] => "c:" ++ n       -- `[name]`: named by the value of `name`
   | _ => "?"
 
 def ctorName : Ctor → String
